@@ -126,7 +126,7 @@ func runChild(c *Content) (string, string) {
 }
 
 // TestVerifC19Misc runs the three streams that need no in-package access in one binary
-// (case indices: key store 0.., trust store 100000.., request 200000.., remote 300000.., watch 400000..).
+// (case indices: key store 0.., trust store 100000.., request 200000.., remote 300000.., watch 400000.., scopes 500000..).
 func TestVerifC19Misc(t *testing.T) {
 	w := vf.NewWriter()
 	defer w.Close()
@@ -137,6 +137,7 @@ func TestVerifC19Misc(t *testing.T) {
 	runReq(w, n/18)
 	runRemote(w, n/18)
 	runWatch(w)
+	runScopes(w, n/9)
 }
 
 func runKS(w *vf.Writer, nrand int) {
